@@ -118,6 +118,7 @@ def run_e1(prop, tier, deadline):
         "merge_differential_steps": sum_counter(results, "merge_differential_steps"),
         "hidden_state_variants": sum_counter(results, "hidden_state_variants"),
         "constructor_built_states": sum_counter(results, "constructor_built_states"),
+        "rejected_call_probes": sum_counter(results, "rejected_call_probes"),
         "configurations": per_cfg,
         "explanation": "Stateful BFS over the reachable states of the real graph objects (values, copied per transition) in lock-step with a std::map reference model; "
                        "every transition's outcome and every public observer in every new state compared with the model (%s). "
